@@ -668,6 +668,29 @@ func ruleCommitReplays(c *Ctx, commit *ssa.Function, roles *cacheRoles, group []
 					continue
 				}
 				got := map[string]bool{}
+				// a return taken where every journal is known to be empty replays "everything"
+				if facts.HoldsOnAllEdges(r.Block(), func(fs factSet) bool {
+					e := journalsEmptyIn(fs)
+					for k := range fs {
+						if call, ok := k.v.(*ssa.Call); ok && k.pol {
+							if h := call.Call.StaticCallee(); h != nil && h.Pkg == f.Pkg && h.Blocks != nil {
+								for j := range trueImpliesEmpty(h) {
+									e[j] = true
+								}
+							}
+						}
+					}
+					for _, jn := range want {
+						if !e[jn] {
+							return false
+						}
+					}
+					return true
+				}) {
+					for _, jn := range want {
+						got[jn] = true
+					}
+				}
 				eachInstr(f, func(_ *ssa.BasicBlock, _ int, in ssa.Instruction) {
 					if rg, ok := in.(*ssa.Range); ok && dominates(rg, r) {
 						if n, _ := fieldLoadName(rg.X); n != "" {
